@@ -56,7 +56,7 @@ def _rand_opts(rng, dag, cname):
     return oo
 
 
-def gen_world(seed, classes=ALL_CLASSES, want_constraints=0.3, node_p=0.25, tag="mr"):
+def gen_world(seed, classes=ALL_CLASSES, want_constraints=0.3, node_p=0.25, tag="mr", length_cov_p=0.2):
     rng = random.Random(H(seed, tag))
     cname = rng.choice(classes)
     inner = None
@@ -130,7 +130,7 @@ def gen_world(seed, classes=ALL_CLASSES, want_constraints=0.3, node_p=0.25, tag=
             cov = rng.choice([1, 1, 0.75, 0.5])
             if cov != 1:
                 args[cons_key + "_coverage"] = cov
-            elif dag and not node_mode and rng.random() < 0.2:
+            elif dag and not node_mode and rng.random() < length_cov_p:
                 # coverage in terms of edge lengths
                 args["subpath_constraints_coverage_length"] = rng.choice([1, 0.6])
                 args["length_attr"] = "len"
@@ -158,8 +158,10 @@ def gen_world(seed, classes=ALL_CLASSES, want_constraints=0.3, node_p=0.25, tag=
         else:
             e = rng.choice(graph["edges"])
             args["error_scaling"] = [[[e[0], e[1]], rng.choice([0, 0.5, 1])]]
-    if base in ("kFlowDecomp",) and rng.random() < 0.12 and g.get("weights") and not node_mode:
+    if base in ("kFlowDecomp",) and rng.random() < 0.25 and g.get("weights") and not node_mode:
         args["solution_weights_superset"] = list(g["weights"]) + [rng.randint(1, 5)]
+        if "k" in args and rng.random() < 0.5:
+            args["k"] = max(1, nroutes - 1)       # fewer paths allowed than the given weights could fill
     if base in ("kMinPathError", "kLeastAbsErrors") and rng.random() < 0.1 and g.get("weights") and not inner:
         args["solution_weights_superset"] = list(g["weights"]) + [rng.randint(1, 5)]
     if cname == "NumPathsOptimization":
@@ -279,6 +281,11 @@ def oracle_c01(world, out, pid="C01"):
             V("weights_missing", {})
     # number of routes
     k = args.get("k")
+    if base.startswith("k") and k is not None and cname != "NumPathsOptimization" and superset:
+        # with solution_weights_superset the model has one layer per given weight, of which at most k may be used
+        used = [r for r in routes if len(r) > 0]
+        if len(used) > k:
+            V("more_than_k", {"k": k, "n_nonempty": len(used), "superset": args.get("solution_weights_superset")})
     if base.startswith("k") and k is not None and cname != "NumPathsOptimization" and not superset:
         if len(routes) > k:
             V("more_than_k", {"k": k, "n": len(routes)})
